@@ -225,6 +225,10 @@ def _vcs(sink, path, S, shape, pb, rows, h, raw, raw_cells, samples, res):
 
 # ---------------------------------------------------------------------------------------------
 
+from checks import kernel_conc as _kc
+
+
+@_kc.replay_both
 def replay(cand):
     """real compiled kernel with a recording Generator: (mean, cov) handed to multivariate_normal vs the dense
     conditional posterior N(a, A), A = (Lambda^-1 + M^T Cs^-1 M)^-1, a = A (Lambda^-1 mu + M^T Cs^-1 y)"""
